@@ -192,7 +192,7 @@ Proof.
   - inversion E; reflexivity.
   - destruct (nth_error (held st) m) as [[id|]|] eqn:N; [| |discriminate].
     + inversion E; reflexivity.
-    + inversion E; subst. symmetry. apply set_nth_same. exact N.
+    + inversion E; subst. f_equal. symmetry. apply set_nth_same. exact N.
 Qed.
 
 Lemma insert_perm x : forall l, Permutation (insert_sorted x l) (x :: l).
